@@ -20,6 +20,9 @@ import (
 
 var authorities = []struct{ host, port string }{
 	{"origin.test", "443"}, {"ORIGIN.TEST", "443"}, {"192.0.2.10", "443"}, {"2001:db8::10", "443"}, {"origin.test", "8443"},
+	// legal host names that stricter name profiles (IDNA lookup) reject: an underscore, hyphens in the third and fourth
+	// position of a label that is not an A-label, a run of hyphens
+	{"my_service.origin.test", "443"}, {"ab--cd.origin.test", "443"}, {"r3---sn-4g5e6nsz.origin.test", "443"},
 }
 
 func bracket(h string) string {
@@ -41,9 +44,9 @@ func proxyScenario(x *explore.X) {
 	opts := world.Options{MITM: true, TransportCAPEM: pki.CAPEM, Insecure: insecure, TLSListener: tlsListener}
 	switch domains {
 	case 1:
-		opts.MITMDomains = []string{`(?i)^origin\.test$`, `^192\.0\.2\.10$`, `^2001:db8::10$`}
+		opts.MITMDomains = []string{`(?i)(^|\.)origin\.test$`, `^192\.0\.2\.10$`, `^2001:db8::10$`}
 	case 2:
-		opts.MITMDomains = []string{`.*`, `-(?i)^origin\.test$`, `-^192\.0\.2\.10$`, `-^2001:db8::10$`}
+		opts.MITMDomains = []string{`.*`, `-(?i)(^|\.)origin\.test$`, `-^192\.0\.2\.10$`, `-^2001:db8::10$`}
 	}
 	w, err := world.Start(opts)
 	if err != nil {
